@@ -451,6 +451,8 @@ class C20(Prop):
         rc = self.rc(t[1])
         if (rc.hdr_len, rc.foot_len, rc.sof) == (4, 2, 0x55):
             return False
+        if t[2] in ("ackenc", "cmnenc", "reqstart", "reqchinfo"):
+            return True
         arg = t[-1]
         if arg in ("-", "none"):
             return False
